@@ -621,7 +621,7 @@ pub fn e2e_child_main(args: &[String]) -> i32 {
                 println!("STATE-CHECK-FAILED cannot send on the first connection");
                 return 1;
             }
-            match a.recv(Duration::from_secs(5)) {
+            match a.recv(crate::e2e::reply_wait()) {
                 Ok(Some(m)) => match OutMessage::from_ws_message(m) {
                     Ok(OutMessage::ScrapeResponse(s)) => {
                         let st = s.files.get(&InfoHash([b'T'; 20])).map(|f| (f.complete, f.incomplete));
@@ -676,7 +676,7 @@ pub fn e2e_child_main(args: &[String]) -> i32 {
                 let _ = b.read_reply(Duration::from_millis(5));
             }
             let _ = a.send_segments(&[b"GET /scrape?info_hash=TTTTTTTTTTTTTTTTTTTT HTTP/1.1\r\nHost: x\r\n\r\n"]);
-            match a.read_reply(Duration::from_secs(5)) {
+            match a.read_reply(crate::e2e::reply_wait()) {
                 HttpRead::Ok { body, .. } => {
                     let want = b"d5:filesd20:TTTTTTTTTTTTTTTTTTTTd8:completei1e10:downloadedi0e10:incompletei0eeee\r\n";
                     // garbage that happens to be a valid announce for this torrent is possible only
@@ -712,7 +712,7 @@ pub fn e2e_child_main(args: &[String]) -> i32 {
                 }
             };
             let _ = a.send(&bep15_encode_request(&UReq::Connect { tid: 1 }));
-            let cid = match a.recv(Duration::from_secs(5)).map(|(b, _)| bep15_decode_response(&b, true)) {
+            let cid = match a.recv(crate::e2e::reply_wait()).map(|(b, _)| bep15_decode_response(&b, true)) {
                 Some(Ok(URsp::Connect { cid, .. })) => cid,
                 other => {
                     println!("CONNECT-FAILED {:?}", other);
@@ -730,7 +730,7 @@ pub fn e2e_child_main(args: &[String]) -> i32 {
             }
             std::thread::sleep(Duration::from_millis(50));
             let _ = a.send(&bep15_encode_request(&UReq::Scrape { cid, tid: 3, hashes: vec![[b'T'; 20]] }));
-            match a.recv(Duration::from_secs(5)).map(|(b, _)| bep15_decode_response(&b, true)) {
+            match a.recv(crate::e2e::reply_wait()).map(|(b, _)| bep15_decode_response(&b, true)) {
                 Some(Ok(URsp::Scrape { stats, .. })) if stats == vec![(1, 0, 0)] => {
                     println!("OK inputs={}", inputs.len());
                     0
